@@ -160,6 +160,9 @@ Next_Insecure ==
   \/ \E days \in {-1, 0, 1}, dry \in BOOLEAN : Empty([days |-> days, dry |-> dry, consent |-> "auto", td |-> "none"]) /\ Emit
   \/ \E p \in {[k |-> "name", n |-> "a"], [k |-> "all"], [k |-> "path", r |-> "V1", d |-> "d", n |-> "a"]} : Rm(p) /\ Emit
 
+\* trash-list --trash-dirs / --volumes on every state of $topdir/.Trash
+Next_ListDirs == ListDirs /\ Emit
+
 -----------------------------------------------------------------------------
 (* C10 / C14: trash-empty around the DAYS threshold; dry run; consent                *)
 
